@@ -359,7 +359,7 @@ class Renderer:
                 elif r < 0.3 and nl is None: sep = sep + " " * rng.randint(1, 3)
             if i > 0 and self.comments and rng.random() < self.comments:
                 c = rng.choice(["/* c */", "/* x.y() */", "/* new Foo() */"] +
-                               (["/* café 中文 */", "/* ü */"] if self.nonascii else []))
+                               (["/* café 中文 */", "/* ü */", "/* caf\udce9 cr\udce8me */", "/*\udcfc*/"] if self.nonascii else []))   # the last two: ISO-8859-1 bytes, not UTF-8 (kept byte for byte; one column each)
                 cur += (sep or " ") + c
                 sep = " " if not tok.glue else ""
                 if tok.glue and rng.random() < 0.5: sep = ""
